@@ -125,6 +125,24 @@ def recover_tree(lines, syntax, indent):
     return root[3], None
 
 
+def text_line_problem(line, indent, depth, text, syntax, may_continue=False):
+    """None, or what is wrong with `line` as the output line of the text line `text` at `depth`;
+    may_continue: more may follow the text on the line (text of a following text-only node)"""
+    prefix = indent * depth
+    if not line.startswith(prefix):
+        return '%r does not start with %d x indent (text line %r one level below its element)' % (line, depth, text)
+    rest = line[len(prefix):]
+    blank_start = syntax == 'haml' and not indent.strip(' \t') and (text.strip(' ') == '' or text[0] in ' \t')
+    if not blank_start and rest.startswith(indent):
+        return '%r is indented more than %d x indent (text line %r)' % (line, depth, text)
+    if may_continue:
+        if not rest.lstrip(' |').startswith(text.strip(' ')):
+            return 'is %r, expected a line that starts with the text line %r' % (rest, text)
+    elif rest.strip(' |') != text.strip(' '):
+        return 'is %r, expected the text line %r' % (rest, text)
+    return None
+
+
 def check_indent(ast, indent):
     from emmet import expand
     abbr = G.print_abbr(ast)
@@ -156,17 +174,9 @@ def check_indent(ast, indent):
                 # the latter cannot be told (and is not checked) when the indent string is white space and
                 # the written line itself starts with white space (HAML writes the text first: empty /
                 # blank lines and lines starting with a blank or tab).
-                prefix = indent * depth
-                if not lines[i].startswith(prefix):
-                    return '%s: line %d %r does not start with %d x indent (text line %r one level below its element); output %r' % (
-                        where, i + 1, lines[i], depth, text, out)
-                rest = lines[i][len(prefix):]
-                blank_start = syntax == 'haml' and not indent.strip(' \t') and (text.strip(' ') == '' or text[0] in ' \t')
-                if not blank_start and rest.startswith(indent):
-                    return '%s: line %d %r is indented more than %d x indent (text line %r); output %r' % (
-                        where, i + 1, lines[i], depth, text, out)
-                if rest.strip(' |') != text.strip(' '):
-                    return '%s: line %d is %r, expected the text line %r; output %r' % (where, i + 1, rest, text, out)
+                problem = text_line_problem(lines[i], indent, depth, text, syntax)
+                if problem:
+                    return '%s: line %d %s; output %r' % (where, i + 1, problem, out)
         tree, err = recover_tree(lines, syntax, indent)
         if err:
             return '%s: %s; output %r' % (where, err, out)
@@ -198,7 +208,8 @@ def check_indent_loose(ast, indent, strict_heads):
     def collect(fr):
         for nd in fr:
             if nd['text'] is not None:
-                texts.update(nd['text'].split('\n'))
+                # (stripped: the greedy indentation split may eat blanks / tabs a text line starts with)
+                texts.update(t.strip(' \t') for t in nd['text'].split('\n') if t.strip(' \t'))
             collect(nd['children'])
     collect(forest)
     for syntax in SYNTAXES:
@@ -213,16 +224,23 @@ def check_indent_loose(ast, indent, strict_heads):
                     head = primary if nd['name'] == 'div' and primary else ('%' if syntax == 'haml' else '') + nd['name'] + primary
                     head += attribute_list(nd['attrs'], syntax)
                     own = nd['text'].split('\n') if nd['text'] is not None else []
-                    elements.append((depth, head, own[0] if len(own) == 1 else None, nd['close']))
+                    elements.append((depth, head, own[0] if len(own) == 1 else None, nd['close'], own if len(own) > 1 else []))
                     flat(nd['children'], depth + 1)
                 else:
                     flat(nd['children'], depth)
         flat(forest, 0)
         k = 0
+        pending = []        # text lines of the element just matched: they must follow it directly
         for i, ln in enumerate(out.split('\n')):
+            if pending:
+                pdepth, ptext = pending.pop(0)
+                problem = text_line_problem(ln, indent, pdepth, ptext, syntax, may_continue=True)
+                if problem:
+                    return '%s: line %d %s; output %r' % (where, i + 1, problem, out)
+                continue
             d, body = split_indent(ln, indent)
             if k < len(elements):
-                depth, head, text, close = elements[k]
+                depth, head, text, close, own_lines = elements[k]
                 ok = False
                 if not strict_heads:
                     ok = body.startswith(head)
@@ -238,14 +256,17 @@ def check_indent_loose(ast, indent, strict_heads):
                         return '%s: line %d %r is indented %d x indent, expected %d (depth of the element); output %r' % (
                             where, i + 1, ln, d, depth, out)
                     k += 1
+                    pending = [(depth + 1, t) for t in own_lines]
                     continue
             left = body
             for t in sorted(texts, key=len, reverse=True):
                 left = left.replace(t, '')
-            if left.strip(' |'):
+            if left.strip(' \t|'):
                 nxt = ('; the next element awaited is %r at depth %d' % (elements[k][1], elements[k][0])) if k < len(elements) else ''
                 return '%s: line %d %r is neither the line of the next element nor made of text of the abbreviation%s; output %r' % (
                     where, i + 1, ln, nxt, out)
+        if pending:
+            return '%s: the text line %r of the last element has no line; output %r' % (where, pending[0][1], out)
         if k < len(elements):
             return '%s: no line of its own for element %r (depth %d); output %r' % (where, elements[k][1], elements[k][0], out)
     return None
